@@ -116,7 +116,13 @@ def validate(ck, execs, label):
 def run_for(ck):
     quick = ck.tier == "quick"
     exe = build()
-    k = extract(exe)
+    try:
+        k = extract(exe)
+    except vlib.Infra as ex:
+        # the code no longer performs the accesses this model is cut along (restructured, not necessarily wrong): the model cannot
+        # be instantiated, which is reported as drift - the system-level scenarios still decide the property
+        ck.drifted(f"exit/reclaim protocol: constant extraction failed: {ex}")
+        return
     ck.extra["exit_protocol_memory_orders_from_code"] = k
     for recs, unb in ([(2, False), (2, True)] if quick else [(2, False), (3, False), (4, False), (2, True), (3, True)]):
         label = f"exit-{'u' if unb else 'b'}{recs}"
